@@ -59,6 +59,15 @@ def check_seq(t, r, start, new):
             exp.append((l, a + d, b + d))
     if got != sorted(exp):
         return "the old non-zero leaves are not the originals divided at start with the later ones shifted by d"
+    # zero-length leaves inside sequences keep their (shifted) time; one sitting exactly at start may stay or move
+    zr = [z for z in _c5.zero_leaves(r, seq_only=True) if z[1] not in newl]
+    zt = _c5.zero_leaves(t, seq_only=True)
+    if len(zr) != len(zt):
+        return "zero-length leaves inside sequences were lost or duplicated"
+    for (a, l) in zt:
+        want = {(a, l)} if a < start else {(a + d, l)} if a > start else {(a, l), (a + d, l)}
+        if not want & set(zr):
+            return f"zero-length leaf {l} at time {a} is not at its (shifted) time afterwards"
     return None
 
 
